@@ -10,6 +10,7 @@ pub mod c10;
 pub mod c12;
 pub mod c13;
 pub mod c14;
+pub mod c20;
 
 pub fn scenario_for(property: &str) -> Option<ScenarioFn> {
     match property {
@@ -21,6 +22,7 @@ pub fn scenario_for(property: &str) -> Option<ScenarioFn> {
         "C12" => Some(c12::run),
         "C13" => Some(c13::run),
         "C14" => Some(c14::run),
+        "C20" => Some(c20::run),
         _ => None,
     }
 }
